@@ -553,12 +553,12 @@ def do_replay(path):
         env["MYTH_BIND_WORKERS"] = "0"
         env.update(rp["envcase"]["env"])
         try:
-            r = subprocess.run([os.path.join(bdir, "mvh"), "--envprobe", str(rp["envcase"]["expect_nworkers"])], env=env, stdout=subprocess.PIPE, stderr=subprocess.PIPE, text=True, timeout=30, errors="replace")
+            r = subprocess.run([os.path.join(bdir, "mvh"), "--envprobe", str(rp["envcase"]["expect_nworkers"])], env=env, stdout=subprocess.PIPE, stderr=subprocess.PIPE, text=True, timeout=120, errors="replace")
             ok = r.returncode == 0 and "ENVPROBE-OK" in r.stdout
             print((r.stdout + r.stderr)[-1500:])
         except subprocess.TimeoutExpired:
             ok = False
-            print("did not finish within 30 s")
+            print("did not finish within 120 s")
         if not ok:
             print("VIOLATION property=%s replay=%s" % (rp.get("property", "C15"), path))
         return 0 if ok else 1
